@@ -236,36 +236,75 @@ Qed.
 
 Lemma run_hook_spec c s h s1 ok :
   run_hook c s h = (s1, ok) →
-  frame_bk_seqs s s1 ∧
-  (∀ d, gets (bk s1) d = gets (bk s) d) ∧
-  (ok = false → bk s1 = bk s) ∧
+  frame_hook s s1 ∧ user_records s s1 ∧
+  (ok = false → wlog s1 = wlog s ∧ next_l2 s1 = next_l2 s ∧ bk s1 = bk s) ∧
   (seqs s1 = seqs s ∨ ∃ signer, seqs s1 = <[signer := (getseq s signer + 1)%N]> (seqs s)).
 Proof.
-  intros H. split; [eapply run_hook_frame; eauto|]. revert H. unfold run_hook.
-  destruct h as [| |signer tseq sig_ok sends].
-  - intros [= <- <-]. auto.
-  - intros [= <- <-]. auto.
-  - destruct (p_hookgas (prm s) <? hook_gas_floor)%N; [intros [= <- <-]; auto|].
-    destruct (negb _); [intros [= <- <-]; auto|].
-    destruct (foldl _ _ sends) as [b|] eqn:Hf.
-    + intros [= <- <-]. cbn [bk set_bk seqs set_seqs]. split; [|split; [discriminate|eauto]].
-      intros d. eapply (foldl_send_gets (λ b snd, hook_send c b signer snd)) in Hf; [exact Hf|].
-      intros ? ? ? ?. apply hook_send_gets.
-    + intros [= <- <-]. cbn. split; [done|]. split; [done|]. eauto.
+  intros H. pose proof (run_hook_frame _ _ _ _ _ H) as (F & U & K). split; [done|]. split; [done|]. split; [done|].
+  revert H. unfold run_hook. destruct h as [| |signer tseq sig_ok msgs]; try (intros [= <- <-]; by left).
+  destruct (p_hookgas (prm s) <? hook_gas_floor)%N; [intros [= <- <-]; by left|].
+  destruct (negb _); [intros [= <- <-]; by left|].
+  destruct (foldl _ _ msgs) as [s2|] eqn:Hf; intros [= <- <-].
+  - apply hook_fold_spec in Hf as (_ & Q & _). right. exists signer. rewrite Q. done.
+  - right. exists signer. done.
 Qed.
 
 Lemma fd_hook_run_spec c s3 dep_ok h s4 ok :
   fd_hook_run c s3 dep_ok h = (s4, ok) →
-  frame_bk_seqs s3 s4 ∧
-  (∀ d, gets (bk s4) d = gets (bk s3) d) ∧
-  (ok = false → bk s4 = bk s3 ∧ dep_ok = true) ∧
+  frame_hook s3 s4 ∧ user_records s3 s4 ∧
+  (ok = false → wlog s4 = wlog s3 ∧ next_l2 s4 = next_l2 s3 ∧ bk s4 = bk s3 ∧ dep_ok = true) ∧
   (seqs s4 = seqs s3 ∨ ∃ signer, seqs s4 = <[signer := (getseq s3 signer + 1)%N]> (seqs s3)).
 Proof.
   unfold fd_hook_run. destruct (dep_ok && hook_nonempty h) eqn:E.
-  - intros H. apply run_hook_spec in H as (F & Hs & Hb & Hq). apply andb_true_iff in E as [-> _].
-    split; [done|]. split; [done|]. split; [|done]. intros Hk. split; [auto|done].
-  - intros [= <- <-]. split; [apply frame_bk_weaken, frame_bk_refl|]. split; [done|]. split; [discriminate|auto].
+  - intros H. apply run_hook_spec in H as (F & U & K & Hq). apply andb_true_iff in E as [-> _].
+    split; [done|]. split; [done|]. split; [|done]. intros Hk. destruct (K Hk) as (?&?&?). auto.
+  - intros [= <- <-]. split; [apply frame_hook_refl|]. split; [by apply user_records_refl|].
+    split; [discriminate|auto].
 Qed.
+
+(* a reflexive, transitive relation kept by sequence bumps, by balance moves that leave every
+   supply alone, and by user withdrawals is kept by the whole hook *)
+Section hook_R.
+  Variable c : cfg.
+  Variable R : l2state → l2state → Prop.
+  Hypothesis Rrefl : ∀ s, R s s.
+  Hypothesis Rtrans : ∀ s1 s2 s3, R s1 s2 → R s2 s3 → R s1 s3.
+  Hypothesis Rseqs : ∀ s q, R s (set_seqs s q).
+  Hypothesis Rmove : ∀ s b, (∀ d, gets b d = gets (bk s) d) → R s (set_bk s b).
+  Hypothesis Rwd : ∀ s sender to d amt s' r, withdraw c s sender to d amt = Some (s', r) → R s s'.
+
+  Lemma hook_msg_R s signer m s' : hook_msg c s signer m = Some s' → R s s'.
+  Proof.
+    destruct m as [to d amt|sender to d amt]; cbn [hook_msg].
+    - intros H. apply bind_Some in H as (b & Hb & [= <-]). apply Rmove. intros d'. eapply hook_send_gets; eauto.
+    - destruct (negb _); [discriminate|]. intros H. apply bind_Some in H as ([s1 r1] & Hw & [= <-]). eauto.
+  Qed.
+
+  Lemma hook_fold_R signer msgs : ∀ s s',
+    foldl (λ os m, s ← os; hook_msg c s signer m) (Some s) msgs = Some s' → R s s'.
+  Proof.
+    induction msgs as [|m msgs IH]; intros s s'; cbn [foldl]; [by intros [= <-]|].
+    cbn [mbind option_bind]. destruct (hook_msg c s signer m) as [s1|] eqn:E.
+    - intros H. eapply Rtrans; [eapply hook_msg_R; eauto|]. by apply IH.
+    - rewrite hook_fold_None. discriminate.
+  Qed.
+
+  Lemma run_hook_R s h s1 ok : run_hook c s h = (s1, ok) → R s s1.
+  Proof.
+    unfold run_hook. destruct h as [| |signer tseq sig_ok msgs]; try (intros [= <- <-]; apply Rrefl).
+    destruct (p_hookgas (prm s) <? hook_gas_floor)%N; [intros [= <- <-]; apply Rrefl|].
+    destruct (negb _); [intros [= <- <-]; apply Rrefl|].
+    destruct (foldl _ _ msgs) as [s2|] eqn:Hf; intros [= <- <-].
+    - eapply Rtrans; [apply Rseqs|]. eapply hook_fold_R; eauto.
+    - apply Rseqs.
+  Qed.
+
+  Lemma fd_hook_run_R s3 dep_ok h s4 ok : fd_hook_run c s3 dep_ok h = (s4, ok) → R s3 s4.
+  Proof.
+    unfold fd_hook_run. destruct (dep_ok && hook_nonempty h); [apply run_hook_R|].
+    intros [= <- <-]. apply Rrefl.
+  Qed.
+End hook_R.
 
 Lemma fd_reclaim_spec c s4 m dep_ok s5 :
   fd_reclaim c s4 m dep_ok = Some s5 →
